@@ -806,15 +806,19 @@ package vanguard
 // variable-match slice it returns.
 //@ func (*routeTrie).match
 //@   requires t != nil
+//@   ensures[C06] r0 != nil ==> r0.method == httpMethod || r0.method == "*"
 //@   modifies
 
 //@ func (*operation).resolveMethod
+//@   atcall[C06] (*routeTrie).match: arg(1) == ufs("escapedPath", o.request.URL) && arg(2) == o.request.Method && arg(0) == transcoder.restRoutes
 //@   requires o != nil && validReq(o.request) && transcoder != nil && o.client.protocol != nil
 //@   step opSame(o)
 //@   ensures[C06,C02] err == nil ==> validConf(o.methodConf) && (typeIs(o.client.protocol, restClientProtocol) ==> o.restTarget != nil && o.restTarget.config == o.methodConf)
 //@   ensures[C06] err != nil ==> o.methodConf == old(o.methodConf)
 //@   ensures[C19] err == nil && !typeIs(o.client.protocol, restClientProtocol) && o.request.Method != "POST" ==> o.request.Method == "GET" && typeIs(o.client.protocol, connectUnaryGetClientProtocol)
 //@   ensures[C19] err == nil && !typeIs(o.client.protocol, restClientProtocol) && o.request.Method != "POST" ==> noSideEffects(o.methodConf)
+//@   ensures[C06] err == nil && !typeIs(o.client.protocol, restClientProtocol) ==> o.methodConf.methodPath == o.request.URL.Path
+//@   ensures[C06] err == nil && typeIs(o.client.protocol, restClientProtocol) ==> o.restTarget != nil && (o.restTarget.method == o.request.Method || o.restTarget.method == "*")
 //@   ensures[C19] err != nil && !typeIs(o.client.protocol, restClientProtocol) && has(transcoder.methods, o.request.URL.Path) && transcoder.methods[o.request.URL.Path] != nil ==> isHTTPErr(err) && httpStatus(err) == 405 && o.request.Method != "POST"
 //@   ensures o.isValid == old(o.isValid) && o.client.protocol == old(o.client.protocol) && o.originalHeaders == old(o.originalHeaders) && o.contentLen == old(o.contentLen)
 //@   modifies o.restTarget, o.restVars, o.methodConf, #LIB0
@@ -1068,3 +1072,67 @@ package vanguard
 //@   ensures[C05] !hdrHas(trailers, "Grpc-Status") && !hdrHas(trailers, "Grpc-Message") && !hdrHas(trailers, "Grpc-Status-Details-Bin")
 //@   ensures[C05] hdrSameExcept(trailers, "Grpc-Status", "Grpc-Message", "Grpc-Status-Details-Bin")
 //@   modifies mapobj(trailers), $elems|, #LIB0
+
+// ------------------------------------------------------------------------------------------------
+// C06 / C11: percent-decoding of path variables. Hex digits are never '%', so every '%' in a string
+// accepted by the first loop starts a well-formed escape; the second loop's look-ahead is in bounds
+// and the pre-computed buffer size is not negative.
+//@ pred hexc(c) = (48 <= c && c <= 57) || (97 <= c && c <= 102) || (65 <= c && c <= 70)
+//@ func validateHex
+//@   ensures[C06,C11] err == nil ==> len(input) >= 3 && input[0] == 37 && hexc(input[1]) && hexc(input[2])
+//@   modifies
+//@ func pathUnescape
+//@   loop 1 invariant[C06,C11] 0 <= i && i <= len(input) && 0 <= percentCount && 3*percentCount <= i
+//@   loop 1 invariant[C06,C11] forall k in [0, i): input[k] == 37 ==> k+2 < len(input) && hexc(input[k+1]) && hexc(input[k+2])
+//@   loop 2 invariant[C06,C11] 0 <= i && i <= len(input)
+//@ func pathEscape
+//@   loop 1 invariant[C11] 0 <= hexCount && -1 <= rangeiter && rangeiter < len(input)
+//@   loop 2 invariant[C11] 0 <= i && i <= len(input)
+// C04 / C11: gRPC percent-encoding of error messages (grpc-message comes from the backend)
+//@ func grpcPercentDecode
+//@   loop 1 invariant[C04,C11] 0 <= i && i <= len(input) && 0 <= percentCount && 3*percentCount <= i
+//@   loop 1 invariant[C04,C11] forall k in [0, i): input[k] == 37 ==> k+2 < len(input) && hexc(input[k+1]) && hexc(input[k+2])
+//@   loop 2 invariant[C04,C11] 0 <= i && i <= len(input)
+//@ func grpcPercentEncode
+//@   loop 1 invariant[C04,C11] 0 <= hexCount && -1 <= rangeiter && rangeiter < len(msg)
+//@   loop 2 invariant[C04,C11] -1 <= rangeiter && rangeiter < len(msg)
+
+// ------------------------------------------------------------------------------------------------
+// C06: the route trie. Every target stored in a node sits under its own verb and its own HTTP
+// method (established by insert, which is the only writer: see the `immutable` declarations).
+//@ pred trieNode(t) = t != nil && (forall v in string: forall m in string: t.verbs != nil && has(t.verbs, v) && t.verbs[v] != nil && has(t.verbs[v], m) && t.verbs[v][m] != nil ==> t.verbs[v][m].method == m && t.verbs[v][m].verb == v)
+//@ typeinv routeTrie trieNode except (*routeTrie).addRoute, (*routeTrie).insert, (*routeTrie).insertChild, (*routeTrie).insertVerb
+//@ func (*routeTrie).getTarget
+//@   requires t != nil
+//@   ensures[C06] r0 != nil ==> r0.verb == verb && (r0.method == method || r0.method == "*")
+//@   modifies
+//@ func (*routeTrie).findTarget
+//@   requires t != nil
+//@   ensures[C06] r0 != nil ==> r0.verb == verb && (r0.method == method || r0.method == "*")
+//@   modifies
+// insert keeps the invariant for every node of every trie (heap-wide statement, because insert is
+// exempt from the assumed per-node invariant).
+//@ pred trieAll(x) = forall t in *routeTrie: forall v in string: forall m in string: t != nil && t.verbs != nil && has(t.verbs, v) && t.verbs[v] != nil && has(t.verbs[v], m) && t.verbs[v][m] != nil ==> t.verbs[v][m].method == m && t.verbs[v][m].verb == v
+//@ pred trieSep(x) = (forall a in *routeTrie: forall b in *routeTrie: a != nil && b != nil && a.verbs != nil && a.verbs == b.verbs ==> a == b)
+//@ |  && (forall a in *routeTrie: forall b in *routeTrie: forall v in string: forall w in string: a != nil && b != nil && a.verbs != nil && b.verbs != nil && has(a.verbs, v) && has(b.verbs, w) && a.verbs[v] != nil && a.verbs[v] == b.verbs[w] ==> a == b && v == w)
+//@ func (*routeTrie).insertChild
+//@   requires t != nil && trieAll(0) && trieSep(0)
+//@   ensures[C06,C17] result != nil && trieAll(0) && trieSep(0)
+//@ func (*routeTrie).insertVerb
+//@   requires t != nil && trieAll(0) && trieSep(0)
+//@   ensures[C06,C17] result != nil && t.verbs != nil && has(t.verbs, verb) && t.verbs[verb] == result && trieAll(0) && trieSep(0)
+//@ func (*routeTrie).insert
+//@   requires t != nil && target != nil && target.method == method && target.verb == segments.verb && trieAll(0) && trieSep(0)
+//@   ensures[C06,C17] trieAll(0) && trieSep(0)
+//@   loop 1 invariant cursor != nil && trieAll(0) && trieSep(0) && target.method == method && target.verb == segments.verb
+//@ func makeTarget
+//@   opt implicit=assume
+//@   ensures[C06,C17] err == nil ==> r0 != nil && r0.method == method && r0.verb == segments.verb && r0.config == config
+//@ func (*routeTrie).addRoute
+//@   opt implicit=assume
+//@   requires t != nil && trieAll(0) && trieSep(0)
+//@   ensures[C06,C17] trieAll(0) && trieSep(0)
+//@   ensures[C06,C17] err == nil ==> r0 != nil && r0.config == config
+// RPC-style paths: the method table is keyed by each method's own path.
+//@ pred methodsOK(t) = t != nil && (forall k in string: t.methods != nil && has(t.methods, k) && t.methods[k] != nil ==> t.methods[k].methodPath == k)
+//@ typeinv Transcoder methodsOK except NewTranscoder, (*Transcoder).registerMethod, (*Transcoder).registerService, (*Transcoder).registerRules, (*Transcoder).addRule
